@@ -40,13 +40,14 @@ fn available(confirmed: &[u64], n_extra: u64) -> Vec<u64> {
     push(F, !has(D) && !has(D2));
     push(D, !has(F));
     push(D2, !has(F));
-    push(M, has(F) && !has(U) && !has(UC) && !has(UR));
-    push(U, has(F) && !has(M) && !has(UC) && !has(UR));
-    push(UC, has(F) && !has(M) && !has(U) && !has(UR));
+    push(M, has(F) && !has(U) && !has(UC) && !has(UR) && !has(UN));
+    push(U, has(F) && !has(M) && !has(UC) && !has(UR) && !has(UN));
+    push(UC, has(F) && !has(M) && !has(U) && !has(UR) && !has(UN));
+    push(UN, has(F) && !has(M) && !has(U) && !has(UR) && !has(UC));
     push(SC, has(UC));
     // breach: an old revoked counterparty commitment (only where the source survives it, finding F20)
     if super::c13::SPENDABLE_FALLBACK {
-        push(UR, has(F) && !has(M) && !has(U) && !has(UC));
+        push(UR, has(F) && !has(M) && !has(U) && !has(UC) && !has(UN));
         push(SR, has(UR));
         push(JR, has(UR));
     }
@@ -149,6 +150,8 @@ impl Group for C14 {
             // anchors channel closed by the counterparty's commitment: our to_remote output must be recognised and swept
             mk_t("a", &[("add", "c", &[F]), ("add", "c", &[UC]), ("add", "c", &[SC]), ("remove", "c", &[SC]), ("remove", "c", &[UC]), ("add", "c", &[U, S])]),
             mk_t("s", &[("add", "c", &[F, UC]), ("add", "s", &[SC]), ("remove", "c", &[SC])]),
+            // closed by a counterparty commitment that pays us nothing: swept from the start; reorg of the close
+            mk_t("a", &[("add", "c", &[F]), ("add", "s", &[UN]), ("add", "c", &[]), ("remove", "c", &[]), ("remove", "s", &[UN]), ("add", "c", &[UN])]),
             // everything in one block
             mk(&[("add", "c", &[F, U, S, T12, V12A, V12B]), ("remove", "c", &[F, U, S, T12, V12A, V12B]), ("add", "c", &[D])]),
         ]
@@ -360,7 +363,7 @@ impl Group for C14 {
                             if *dir == "add" {
                                 // the decoder is an input of the model; check it against what the harness built: the output
                                 // the closing transaction pays to us and its HTLC outputs must be the ones the monitor tracks
-                                for cid in [U, UC, UR] {
+                                for cid in [U, UC, UR, UN] {
                                     if ids.contains(&cid) {
                                         let st = wd.state_json();
                                         let co_ = &st["closing_outpoints"];
@@ -368,11 +371,11 @@ impl Group for C14 {
                                         let seen_our = co_["our_output"].get(0).and_then(|x| x.as_u64()).map(|x| x as u32);
                                         let mut seen_h: Vec<u32> = co_["htlc_outputs"].as_array().map(|a| a.iter().filter_map(|x| x.as_u64()).map(|x| x as u32).collect()).unwrap_or_default();
                                         seen_h.sort();
-                                        co.tags.insert(format!("close:{}:{}", if cid == U { "holder-commitment" } else if cid == UC { "counterparty-commitment" } else { "revoked-counterparty-commitment" }, wd.ctype));
-                                        if seen_our != Some(bo) || seen_h != bh {
+                                        co.tags.insert(format!("close:{}:{}", if cid == U { "holder-commitment" } else if cid == UC { "counterparty-commitment" } else if cid == UN { "counterparty-commitment-nothing-ours" } else { "revoked-counterparty-commitment" }, wd.ctype));
+                                        if seen_our != bo || seen_h != bh {
                                             co.violations.push(Violation {
                                                 kind: "our-output-not-recognised".into(),
-                                                desc: format!("channel type {}: closing tx {} pays us output {} and HTLC outputs {:?}, the monitor tracks our={:?} htlcs={:?}", wd.ctype, cid, bo, bh, seen_our, seen_h),
+                                                desc: format!("channel type {}: closing tx {} pays us output {:?} and HTLC outputs {:?}, the monitor tracks our={:?} htlcs={:?}", wd.ctype, cid, bo, bh, seen_our, seen_h),
                                                 at: i,
                                             });
                                         }
@@ -389,7 +392,7 @@ impl Group for C14 {
                                     relevant_reorg = true;
                                     co.tags.insert("remove:relevant".into());
                                 }
-                                for (id, tag) in [(F, "funding"), (D, "doublespend"), (D2, "doublespend"), (M, "mutual"), (U, "unilateral"), (UC, "unilateral-cp"), (S, "sweep"), (SC, "sweep"),
+                                for (id, tag) in [(F, "funding"), (D, "doublespend"), (D2, "doublespend"), (M, "mutual"), (U, "unilateral"), (UC, "unilateral-cp"), (UN, "unilateral-cp"), (S, "sweep"), (SC, "sweep"),
                                                   (T1, "htlc"), (T2, "htlc"), (T12, "htlc"), (V1, "second-level"), (V2, "second-level"),
                                                   (V12A, "second-level"), (V12B, "second-level")] {
                                     if ids.contains(&id) { co.tags.insert(format!("reorg-of:{}", tag)); }
@@ -400,6 +403,17 @@ impl Group for C14 {
                             }
                             // property monitor: view == fresh replay of the surviving chain
                             let view = strip_sb(&wd.digest());
+                            // ... and == the reference view the harness derives from its own knowledge of the chain
+                            // (catches deviations that a replay through the same implementation would repeat)
+                            let reference = expected_view(wd, &chain);
+                            if view != reference {
+                                co.tags.insert("violation:view-differs-from-chain".into());
+                                co.violations.push(Violation {
+                                    kind: "view-differs-from-chain".into(),
+                                    desc: format!("after {} the monitor shows [{}] but the surviving chain implies [{}]", op, view, reference),
+                                    at: i,
+                                });
+                            }
                             let fresh = {
                                 let mut f = World::new_typed(&ct);
                                 let mut ok = true;
